@@ -5,8 +5,16 @@
 From DV Require Export Sync.
 
 (* observed state of every peer while replaying; [seen] = every tombstone a peer has ever shown *)
-Record ostate := { o_sys : sys; o_seen : list (list tomb) }.
-Definition oinit (n : N) : ostate := {| o_sys := init_sys n; o_seen := repeat [] (N.to_nat n) |}.
+Record ostate := { o_sys : sys; o_seen : list (list tomb); o_eseen : list (list etomb) }.
+Definition oinit (n : N) : ostate :=
+  {| o_sys := init_sys n; o_seen := repeat [] (N.to_nat n); o_eseen := repeat [] (N.to_nat n) |}.
+Fixpoint set_eseen (k : nat) (ts : list etomb) (l : list (list etomb)) : list (list etomb) :=
+  match k, l with
+  | O, h :: t => (ts ++ h) :: t
+  | S k', h :: t => h :: set_eseen k' ts t
+  | _, [] => []
+  end.
+Definition get_eseen (p : N) (st : ostate) : list etomb := nth (N.to_nat p) (o_eseen st) [].
 Fixpoint set_seen (k : nat) (ts : list tomb) (l : list (list tomb)) : list (list tomb) :=
   match k, l with
   | O, h :: t => (ts ++ h) :: t
@@ -15,7 +23,8 @@ Fixpoint set_seen (k : nat) (ts : list tomb) (l : list (list tomb)) : list (list
   end.
 Definition get_seen (p : N) (st : ostate) : list tomb := nth (N.to_nat p) (o_seen st) [].
 Definition observe (p : N) (r : replica) (st : ostate) : ostate :=
-  {| o_sys := set p r (o_sys st); o_seen := set_seen (N.to_nat p) (tombs r) (o_seen st) |}.
+  {| o_sys := set p r (o_sys st); o_seen := set_seen (N.to_nat p) (tombs r) (o_seen st);
+     o_eseen := set_eseen (N.to_nat p) (etombs r) (o_eseen st) |}.
 
 (* C03, per pull: afterwards the receiver holds, for every row the source held, that version or a
    later one (or a deletion record covering it), and every deletion record the source held *)
@@ -26,6 +35,18 @@ Definition holds_at_least (dst : replica) (n : nrow) : bool :=
   end.
 Definition delivered (src_before dst_after : replica) : bool :=
   forallb (holds_at_least dst_after) (nodes src_before) && tombs_subset (tombs src_before) (tombs dst_after).
+
+(* references, per pull: every reference the source SHOWED is afterwards held by the receiver, or is at
+   or below a reference deletion record the receiver holds, or one of its ends is a row the receiver does
+   not hold; and the receiver holds every reference deletion record the source held *)
+Definition ecovered (ts : list etomb) (e : erow) : bool :=
+  existsb (fun t => N.eqb (et_src t) (e_src e) && N.eqb (et_dest t) (e_dest e) && (e_cdate e <=? et_cdate t)) ts.
+Definition refs_delivered (src_before dst_after : replica) : bool :=
+  forallb (fun e => ref_held dst_after e || ecovered (etombs dst_after) e || negb (visible dst_after e)) (shown_refs src_before)
+  && forallb (has_etomb (etombs dst_after)) (etombs src_before).
+(* C11 for references, per step: the peer holds no reference at or below a reference deletion record it has ever shown *)
+Definition refs_stay_deleted (seen : list etomb) (r : replica) : bool :=
+  forallb (fun e => negb (ecovered seen e)) (edges r).
 
 (* C11, per step: no row of the peer is at or below a deletion record that peer has ever shown *)
 Definition stays_deleted (seen : list tomb) (r : replica) : bool :=
@@ -40,3 +61,11 @@ Definition only_pulls (ops : list sop) : bool := forallb (fun o => match o with 
 
 (* C03, converged content: a replica does not show a row together with a deletion record that covers it *)
 Definition coherent (r : replica) : bool := stays_deleted (tombs r) r.
+
+(* a replica holds no reference at or below a reference deletion record it holds *)
+Definition refs_coherent (r : replica) : bool := refs_stay_deleted (etombs r) r.
+Fixpoint run_refs_coherent (S : sys) (ops : list sop) : bool :=
+  match ops with
+  | [] => true
+  | o :: rest => let S' := fst (fst (step S o)) in forallb refs_coherent S' && run_refs_coherent S' rest
+  end.
